@@ -120,13 +120,12 @@ impl SymbolTable {
     // the most recently defined symbol with a depth less than or equal to
     // the given depth.
     pub fn resolve(&mut self, name: &str, depth: usize) -> Option<Rc<Symbol>> {
-        if let Some(symbols) = self.store.get(name) {
-            for symbol in symbols.iter().rev() {
-                if symbol.depth <= depth {
-                    return Some(Rc::clone(symbol));
-                }
-            }
-        } else if let Some(outer) = &mut self.outer {
+        // Symbols of blocks that have ended are retired (see 'retire'), so every
+        // symbol still in the store is visible and the latest one is the innermost.
+        if let Some(symbol) = self.store.get(name).and_then(|symbols| symbols.last()) {
+            return Some(Rc::clone(symbol));
+        }
+        if let Some(outer) = &mut self.outer {
             if let Some(obj) = outer.resolve(name, depth) {
                 if matches!(
                     obj.scope,
@@ -139,6 +138,16 @@ impl SymbolTable {
             }
         }
         None
+    }
+
+    // Forget the symbols defined at 'depth' or deeper when the block at that
+    // depth ends, so that a binding is visible only until the end of its block.
+    // Captured (free) symbols belong to the whole function and are kept.
+    pub fn retire(&mut self, depth: usize) {
+        for symbols in self.store.values_mut() {
+            symbols.retain(|s| s.scope == SymbolScope::Free || s.depth < depth);
+        }
+        self.store.retain(|_, symbols| !symbols.is_empty());
     }
 
     pub fn define_builtin_fn(&mut self, index: usize, name: &str) -> Rc<Symbol> {
